@@ -102,8 +102,12 @@ func (bo *BlockOperations) CreateProposalBlock(
 	// so statedb of proposal node already contains the new state and txs receipts of this proposal block.
 	//maxBytes := lastState.ConsensusParams.Block.MaxBytes
 	// Fetch a limited amount of valid evidence
-	maxNumEvidence, _ := types.MaxEvidencePerBlock(lastState.ConsensusParams.Evidence.MaxBytes)
-	evidence, _ := bo.evPool.PendingEvidence(maxNumEvidence)
+	// PendingEvidence takes a byte budget, not a number of evidences.
+	maxNumEvidence, maxEvidenceBytes := types.MaxEvidencePerBlock(lastState.ConsensusParams.Evidence.MaxBytes)
+	evidence, _ := bo.evPool.PendingEvidence(maxEvidenceBytes)
+	if int64(len(evidence)) > maxNumEvidence {
+		evidence = evidence[:maxNumEvidence]
+	}
 
 	// Set time.
 	var timestamp time.Time
